@@ -56,6 +56,8 @@ type Thread struct {
 	depth     int
 	callStack []string
 	vc        VC
+	frames      []*Frame
+	activePanic *goPanicSignal
 }
 
 type Sched struct {
@@ -101,6 +103,21 @@ func (ex *Exec) newThread(fv *FuncV, args []Value) *Thread {
 		th.started = true
 		defer func() {
 			if r := recover(); r != nil {
+				if sig, isPanic := r.(*goPanicSignal); isPanic {
+					// a Go panic nobody recovered: the finding it would have been without pending defers
+					func() {
+						defer func() {
+							if r2 := recover(); r2 != nil {
+								if pa, ok := r2.(pathAbort); ok {
+									r = pa
+								} else {
+									r = r2
+								}
+							}
+						}()
+						ex.reportPanic(sig.id, sig.msg)
+					}()
+				}
 				if pa, ok := r.(pathAbort); ok {
 					if pa.kind != abKilled {
 						th.abort = &pa
@@ -290,7 +307,7 @@ func (ex *Exec) schedLoop(main *Thread) *pathAbort {
 			return &pathAbort{abPathEnd, "deadlock/leak"}
 		}
 		k := 0
-		if len(ts) > 1 {
+		if len(ts) > 1 && !ex.oneSched {
 			k = ex.choose(len(ts), nil, "sched")
 		}
 		t := ts[k]
